@@ -11,7 +11,7 @@ echo "$res"
 echo "$res" | grep -q "218 passed" || { res=$(/verif/tools/baseline.sh /repo | tail -1); echo "$res"; }
 echo "$res" | grep -q "218 passed" || { echo "BASELINE FAILS - reverting"; git checkout -- .; exit 1; }
 find . -name '*.orig' -delete
-git add -A src
+git add -u; git add -A src
 git commit -qm "$subject
 
 $what" 
